@@ -7,7 +7,7 @@ CONSTANTS
   StartId = 1
   StartSerial = 0
   LockEnforced = TRUE
-  RefThreads = {t1, t2, t3}
+  RefThreads = {t1, t2}
   NRef = 2
   StartCtr = 0
 INVARIANT UniqueWhileBounded
